@@ -267,7 +267,12 @@ CheckOp(ev) ==
         \* C09: the entity handed to a callback is one the operation affects
         affected == x.foot \cup SetOf(CreatedBy(ev)) \cup (IF ev.op = "Emit" THEN {ev.e} ELSE {})
         vWrongE == IF ok THEN {V("C09.wrong-entity", ev.cbs[i].e) : i \in {j \in DOMAIN ev.cbs : ev.cbs[j].e \notin affected}} ELSE {}
-        vC09 == vWrongE \cup UNION {
+        \* ... and not another entity of the same operation in its place: an observer that is called twice for one
+        \* entity while an entity it had to be called for is left out was handed the wrong entity
+        dupl == {d \in wantOE : Cardinality({i \in DOMAIN gotCb : gotCb[i] = d}) > 1}
+        left == {d \in wantOE : \A i \in DOMAIN gotCb : gotCb[i] # d}
+        vSubst == IF ok THEN {V("C09.wrong-entity", <<"in place of", d.o, d.e>>) : d \in {m \in left : \E q \in dupl : q.o = m.o}} ELSE {}
+        vC09 == vWrongE \cup vSubst \cup UNION {
                   LET cb == ev.cbs[i] ph == PhOf(i) cw == CbWorld(ev, x, ph) IN
                   IF ph = "none" \/ ev.op = "DumpLoad" THEN {}
                   ELSE (IF cb.panic THEN {V("C09.callback-panicked", cb.e)} ELSE {})
